@@ -4,7 +4,7 @@ from props import solverstream as ss
 
 THEOREMS = ["C04_render_terminates", "C04_render_fuel_irrelevant", "C04_render_lines_linear", "C04_render_lines_fine",
             "C04_render_lines_quadratic", "C04_render_size_bound", "C04_simplify_order_independent", "C04_dfs_fuel_sufficient",
-            "C04_pre_fix_renderer_loops", "C04_path_only_exponential", "C04_requires_assert_cannot_fail", "C04_decide_unreachable_needs_falsified_clause", "C04_complete_no_panic", "C04_checked_propagate_complete", "C04_solver_model_decide_no_panic_by_invariants", "C04_root_run_decide_never_panics"]
+            "C04_pre_fix_renderer_loops", "C04_path_only_exponential", "C04_requires_assert_cannot_fail", "C04_decide_unreachable_needs_falsified_clause", "C04_complete_no_panic", "C04_checked_propagate_complete", "C04_solver_model_decide_no_panic_by_invariants", "C04_root_run_decide_never_panics", "C04_root_run_is_run_loop"]
 CHECKER = ("coqc Props/C04.v + Print Assumptions; harness solve_cases under catch_unwind + poll watchdog + output-size cap, debug "
            "and release, sync and yielding runtimes; every conflict message compared BYTE FOR BYTE with the extracted renderer model "
            "(Conflict/Render.v) and its line count with the proven bound lin_bound; a sample re-proved inside Coq")
